@@ -251,6 +251,17 @@ func randSpec(phase string, rng *rand.Rand) caseSpec {
 	for c := 0; c < spec.Calls; c++ {
 		spec.Scopes = append(spec.Scopes, scopeSets[rng.IntN(len(scopeSets))])
 	}
+	if !cancel && rng.IntN(100) < 12 {
+		// scenario: the second call meets a Bearer challenge while the cache
+		// already holds a token for the challenged scopes
+		spec.Calls = 2
+		spec.Cache = []string{"cache", "single"}[rng.IntN(2)]
+		spec.PresetAuth = false
+		head := []outcome{concrete(rng, "401bearer"), concrete(rng, "ok"), concrete(rng, "401bearer")}
+		spec.Target = append(head, spec.Target...)
+		spec.Token = []outcome{concrete(rng, "ok")}
+		spec.Scopes = [][]string{scopeSets[rng.IntN(3)], scopeSets[rng.IntN(2)]}
+	}
 	fillPacing(&spec, rng)
 	fillMethod(&spec, rng)
 	return spec
@@ -364,14 +375,14 @@ func doCall(fn func() (*http.Response, error), rec *recorder, cancelCase bool) c
 			return callResult{}
 		}
 	}
-	wait := 2 * time.Second
-	for round := 0; round < 40; round++ {
+	wait := time.Second
+	for round := 0; round < 240; round++ {
 		select {
 		case o := <-ch:
 			return callResult{resp: o.resp, err: o.err, finished: true}
 		case <-time.After(wait):
 		}
-		wait = 500 * time.Millisecond
+		wait = 250 * time.Millisecond
 		if !rec.cancelFired.Load() {
 			continue
 		}
@@ -380,7 +391,7 @@ func doCall(fn func() (*http.Response, error), rec *recorder, cancelCase bool) c
 			select {
 			case o := <-ch:
 				return callResult{resp: o.resp, err: o.err, finished: true}
-			case <-time.After(500 * time.Millisecond):
+			case <-time.After(250 * time.Millisecond):
 			}
 			if g2 := parkedInRetryPause(); g2 != "" {
 				return callResult{parked: g2}
@@ -518,7 +529,10 @@ func judgeCall(spec caseSpec, call int, rec *recorder, cr callResult, res *worke
 		maxRetry: spec.MaxRetry, minWait: spec.MinWait, maxWait: spec.MaxWait, cancel: spec.CancelMode,
 		wantLen: func(*attempt) int { return len(rec.original) },
 		mayContinue: func(a *attempt) bool {
-			return (a.Target && (a.out.Kind == "401basic" || a.out.Kind == "401bearer")) || (!a.Target && a.out.Kind == "ok")
+			// any 401 is an authentication challenge the auth layer may answer
+			// with a token fetch / re-send (a second 401 met while trying a
+			// cached token is not parsed again by the library)
+			return (a.Target && strings.HasPrefix(a.out.Kind, "401")) || (!a.Target && a.out.Kind == "ok")
 		}}
 	rec.mu.Lock()
 	defer rec.mu.Unlock()
